@@ -88,6 +88,11 @@ class Case final : public sim::CaseBase {
     split_unique = !promise_first && g.Draw(3) == 2;
     // 1: RunShared(e, f) 2: AsyncSharedContract(e, f(promise)): the executor's job is the producer, the root is a SharedFutureOn
     run_kind = (!promise_first && !split_unique && g.Draw(3) == 2) ? 1 + static_cast<int>(g.Draw(3)) : 0;
+    // the producer, before it fulfils its SharedPromise, connects other promises to it (Connect(primary, subsumed)): their futures
+    // must then show the same result. Bits: 1 a unique promise, 2 a shared promise.
+    subsumed = (!split_unique && run_kind == 0) ? static_cast<int>(g.Draw(4)) : 0;
+    // Split(Future&&) of a future that is already fulfilled (Connect's ready path)
+    split_after_set = split_unique && g.Flip();
     by_reference = g.Draw(4) == 3;
     exec_pool = g.Flip();
     pool_workers = 1 + g.Draw(2);
@@ -117,6 +122,12 @@ class Case final : public sim::CaseBase {
 
   void Describe(sim::Json& j) const final {
     j.KV("producer", kProducerNames[producer]).KV("created_by", promise_first ? "MakeSharedPromise + Split(promise)" : (split_unique ? "MakeContract + Split(Future&&)" : (run_kind == 1 ? "RunShared(e, f)" : (run_kind == 2 ? "AsyncSharedContract(e, f)" : (run_kind == 3 ? "coroutine returning SharedFuture (co_return / throw / stopped executor)" : "MakeSharedContract")))));
+    if (subsumed != 0) {
+      j.KV("producer_connects_first", subsumed == 1 ? "a unique promise" : (subsumed == 2 ? "a shared promise" : "a unique and a shared promise"));
+    }
+    if (split_after_set) {
+      j.KV("split", "after the unique future was fulfilled");
+    }
     j.KV("observers_use", by_reference ? "one SharedFuture by const reference" : "their own copies");
     j.KV("executor", exec_pool ? "proxy(pool)" : "proxy(inline)").KV("pool_workers", pool_workers).KV("producer_delay", prod_delay);
     j.Key("observers").Arr();
@@ -450,6 +461,23 @@ class Case final : public sim::CaseBase {
       } else if (split_unique) {
         // the shared state is fed by a unique future through Connect: the producer fulfils the unique promise
         auto [f, p] = yaclib::MakeContract<T, E>();
+        if (split_after_set) {
+          SIM_PROBE("split_of_a_ready_future");
+          sim::RaceWrite(&cell, sizeof cell);
+          cell = id;
+          set_invoke = sim::Seq();
+          switch (producer) {
+            case kSetValue: std::move(p).Set(T{id}); break;
+            case kSetError: std::move(p).Set(E{id}); break;
+            case kSetException: std::move(p).Set(sim::MakeEx(id)); break;
+            default: {
+              SIM_FAULT("promise_dropped");
+              auto dead = std::move(p);
+              (void)dead;
+            } break;
+          }
+          set_return = sim::Seq();
+        }
         root = yaclib::Split(std::move(f));
         unique_promise = std::move(p);
       } else if (promise_first) {
@@ -465,9 +493,21 @@ class Case final : public sim::CaseBase {
         copies.push_back(by_reference ? SF{} : (promise_first && (o % 2) == 1 ? yaclib::Split(promise) : SF{root}));
       }
       SF by_ref_handle = by_reference ? root : SF{};
-      auto fulfil = [this](auto pp) {
+      auto [sub_uf, sub_up] = yaclib::MakeContract<T, E>();
+      auto [sub_sf, sub_sp] = yaclib::MakeSharedContract<T, E>();
+      auto fulfil = [this, sup = std::move(sub_up), ssp = std::move(sub_sp)](auto pp) mutable {
         for (std::uint32_t y = 0; y < prod_delay; ++y) {
           sim::Yield();
+        }
+        if constexpr (std::is_same_v<decltype(pp), yaclib::SharedPromise<T, E>>) {
+          if ((subsumed & 1) != 0) {
+            SIM_PROBE("connect_primary_unique");
+            yaclib::Connect(pp, std::move(sup));
+          }
+          if ((subsumed & 2) != 0) {
+            SIM_PROBE("connect_primary_shared");
+            yaclib::Connect(pp, std::move(ssp));
+          }
         }
         sim::RaceWrite(&cell, sizeof cell);
         cell = id;
@@ -493,10 +533,12 @@ class Case final : public sim::CaseBase {
       }}
                                 : run_kind != 0 ? yaclib_std::thread{[] {
       }}
-                                : split_unique ? yaclib_std::thread{[fulfil, pp = std::move(unique_promise)]() mutable {
-        fulfil(std::move(pp));
+                                : split_unique ? yaclib_std::thread{[fulfil = std::move(fulfil), pp = std::move(unique_promise)]() mutable {
+        if (pp.Valid()) {
+          fulfil(std::move(pp));
+        }
       }}
-                                             : yaclib_std::thread{[fulfil, pp = std::move(promise)]() mutable {
+                                             : yaclib_std::thread{[fulfil = std::move(fulfil), pp = std::move(promise)]() mutable {
                                                  fulfil(std::move(pp));
                                                }};
       std::deque<yaclib_std::thread> ts;
@@ -511,6 +553,12 @@ class Case final : public sim::CaseBase {
       prod.join();
       for (auto& t : ts) {
         t.join();
+      }
+      if ((subsumed & 1) != 0) {
+        Saw(-1, kConnectUnique, sim::Observe(std::move(sub_uf).Get(), "Get of the future of a unique promise connected to the primary shared promise"));
+      }
+      if ((subsumed & 2) != 0) {
+        Saw(-1, kConnectShared, sim::Observe(std::as_const(sub_sf).Get(), "Get of the future of a shared promise connected to the primary shared promise"));
       }
       sim::SleepNs(50'000'000);  // subscriptions on the executor finish
       on_handle = nullptr;
@@ -567,7 +615,8 @@ class Case final : public sim::CaseBase {
   }
 
   int producer = 0, observers = 2;
-  bool split_unique = false;
+  bool split_unique = false, split_after_set = false;
+  int subsumed = 0;
   int run_kind = 0;
   const yaclib::SharedFutureOn<T, E>* on_handle = nullptr;
   bool promise_first = false, by_reference = false, exec_pool = false, root_drops_early = false;
